@@ -46,13 +46,13 @@ def add_hbcons(cfg, entries):
         cfg.add(Obj(0x1016, i + 1, RW, "hbcons", "H", node, time))
 
 
-def add_rpdo(cfg, num, cobid, typ, maps):
+def add_rpdo(cfg, num, cobid, typ, maps, nmap_slots=8):
     """maps: list of 32-bit mapping values"""
     cfg.add(var(0x1400 + num, 0, D | R, 1, 2))
     cfg.add(var(0x1400 + num, 1, N | RW, 4, cobid, "pdoid"))
     cfg.add(var(0x1400 + num, 2, RW, 1, typ, "pdotype"))
     cfg.add(var(0x1600 + num, 0, RW, 1, len(maps), "pdonum"))
-    for i in range(8):
+    for i in range(nmap_slots):
         cfg.add(var(0x1600 + num, i + 1, RW, 4, maps[i] if i < len(maps) else 0, "pdomap"))
 
 
